@@ -155,6 +155,57 @@ def run(ctx):
                               kind=k, impl=str(got), expected=str(exp)); break
         res.traces += 1
 
+    # (2c) the operator wrappers against the Lean operator model (Model/BeatArith.lean), zero divisors included --------------
+    areqs, ameta = [], []
+    def rq():
+        d = rng.choice([1, 1, 2, 3, 4, 48, 96, 7])
+        return Fraction(rng.randrange(-200, 200), d)
+    for i in range(ctx.scale(800, 10000)):
+        f = rng.choice(["add", "sub", "mul", "truediv", "mod", "radd", "rsub", "rmul", "rtruediv", "rmod", "divmod", "floordiv", "neg", "abs", "pow"])
+        a = rq(); b = rq() if rng.random() < .85 else Fraction(0)
+        if rng.random() < .3: b = Fraction(int(b))            # an int operand
+        A = Beat(a); B = (int(b) if b.denominator == 1 and rng.random() < .5 else (Beat(b) if rng.random() < .5 else Fraction(b)))
+        n = rng.randrange(-3, 5)
+        case = {"stream": "operator-wrappers", "f": f, "a": str(a), "b": str(b), "b_type": type(B).__name__, "n": n}
+        res.case(case, nontrivial=True)
+        try:
+            if f == "add": r = A + B
+            elif f == "sub": r = A - B
+            elif f == "mul": r = A * B
+            elif f == "truediv": r = A / B
+            elif f == "mod": r = A % B
+            elif f == "radd": r = B + A
+            elif f == "rsub": r = B - A
+            elif f == "rmul": r = B * A
+            elif f == "rtruediv": r = B / A
+            elif f == "rmod": r = B % A
+            elif f == "divmod": r = divmod(A, B)
+            elif f == "floordiv": r = A // B
+            elif f == "neg": r = -A
+            elif f == "abs": r = abs(A)
+            else: r = A ** n
+            if f.startswith("r") and isinstance(B, Beat):
+                pass        # Beat op Beat: the left operand's method runs; same value
+            if f == "divmod": got = [str(int(r[0])), frac(Fraction(r[1]))]; typed = type(r[1]) is Beat
+            elif f == "floordiv": got = str(int(r)); typed = True
+            else: got = frac(Fraction(r)); typed = type(r) is Beat
+        except ZeroDivisionError:
+            got = None; typed = True
+        except Exception as ex:
+            res.violation(case, "operator raised", impl=core.exc_name(ex)); continue
+        if not typed:
+            res.violation(case, "the result of an operator on a Beat is not a Beat", impl=type(r).__name__); continue
+        req = {"op": "beat.arith", "f": f, "a": frac(a), "b": frac(b)}
+        if f == "pow": req["n"] = n
+        areqs.append(req); ameta.append((case, got))
+    for (case, got), m in zip(ameta, ctx.lean.eval_sharded(areqs)):
+        res.traces += 1
+        mm = m if not isinstance(m, list) else [str(m[0]), m[1]]
+        gg = got
+        if isinstance(m, int) and not isinstance(m, bool): mm = str(m)
+        if gg != mm:
+            res.tie_break("beat.arith", case, gg, m)
+
     # (3) text form on the grid ------------------------------------------------------------------
     lim = 96000 if ctx.thorough else 9600
     grid = list(range(-lim, lim + 1))
